@@ -3,7 +3,7 @@ from hypothesis import strategies as st
 
 from asyncfix import FMsg, FTag
 from asyncfix.connection import ConnectionState
-from asyncfix.errors import FIXConnectionError
+from asyncfix.errors import EncodingError, FIXConnectionError
 from asyncfix.journaler import Journaler
 from asyncfix.message import FIXMessage, MessageDirection
 from vlib.hyp import run_given
@@ -15,7 +15,8 @@ PROPERTY = "C05"
 LEVEL = "exploration"
 RULE = (
     "Hypothesis operation lists (<=25 quick, <=60 thorough) over one real endpoint (both roles) whose journal starts at drawn "
-    "counters (1, 2, 999, 2^31-1, 2^31, 2^62 ...): application sends of every class (NewOrderSingle with and without groups, forwarded "
+    "counters (1, 2, 999, 2^31-1, 2^31, 2^62 ...): application sends of every class (NewOrderSingle with and without groups, a message with a repeating group the protocol table does not map, "
+    "messages with a non-ASCII value alone or behind a group (must be refused with EncodingError like a refused send), forwarded "
     "message objects that still carry a stale MsgSeqNum / PossDupFlag=N / foreign CompIDs, "
     "Heartbeat, TestRequest through send_msg (must be refused) and through send_test_req, Logon, Logout, ResendRequest, Reject, "
     "SequenceReset and PossDup retransmissions carrying their own number), in every state reached (before Logon, after Logon, "
@@ -24,7 +25,7 @@ RULE = (
     "frame was written) and reconnect. After every operation: the new frames "
     "(no PossDupFlag, not SequenceReset) written in the step continue the model counter without hole or repeat, "
     "recover_msg(OUTBOUND, n) returns exactly the bytes written, live next_num_out and the stored one (second load path) equal "
-    "last+1; a send that raised FIXConnectionError wrote nothing, left no row and moved no counter. Non-trivial = history with >=1 "
+    "last+1; a send that raised FIXConnectionError (or EncodingError for a non-ASCII value) wrote nothing, left no row and moved no counter. Non-trivial = history with >=1 "
     "refused send and >=1 library-initiated send; distinct by (role, counters, op list)."
 )
 ASSUMPTIONS = [
@@ -32,7 +33,7 @@ ASSUMPTIONS = [
     "journal read back through a second load path (create_or_load on the same journal)",
 ]
 STARTS = [1, 2, 7, 999, 2**31 - 1, 2**31, 2**62]
-SEND = ["D", "Dg", "0", "1", "A", "5", "2", "3", "4own", "PD", "D43N", "D34"]
+SEND = ["D", "Dg", "0", "1", "A", "5", "2", "3", "4own", "PD", "D43N", "D34", "Dug", "Dna", "Dgna"]
 INB = ["logon", "TR", "GAP", "RR", "HB", "LOW", "BADCOMP", "APP"]
 op = st.one_of(
     st.tuples(st.just("send"), st.sampled_from(SEND)),
@@ -55,6 +56,18 @@ def make_msg(cls, uid, N):
         m = FIXMessage(FMsg.NEWORDERSINGLE, {11: f"c{uid}", 55: "SYM", 54: 1, 38: 10})
         if cls == "Dg":
             m.set_group(453, [{448: "p1", 447: "D", 452: 1}, {448: "p2", 447: "D", 452: 3}])
+        return m
+    if cls == "Dug":
+        # a repeating group the protocol table does not map: encodes fine, but its journaled copy cannot be re-encoded for a replay
+        m = FIXMessage("V", {262: f"r{uid}", 263: 1, 264: 0})
+        m.set_group(20100, [{20101: "a"}, {20101: "b"}])
+        return m
+    if cls in ("Dna", "Dgna"):
+        # a value that is not ASCII (refused with EncodingError before a number is allocated), alone or behind a repeating group
+        m = FIXMessage(FMsg.NEWORDERSINGLE, {11: f"n{uid}"})
+        if cls == "Dgna":
+            m.set_group(453, [{448: "p1", 447: "D", 452: 1}])
+        m.set(58, "caf\u00e9")
         return m
     if cls == "D43N":
         # a forwarded / echoed message object: explicit PossDupFlag=N and a stale MsgSeqNum tag -> still a NEW message
@@ -162,12 +175,12 @@ def run_history(acc, role, n_out, n_in, logon_first, ops, maxlen, frame_hook=Non
                 r = b.w.call(ep.send_msg(msg))
                 if r[0] == "exc":
                     e = r[1]
-                    if isinstance(e, FIXConnectionError):
+                    if isinstance(e, FIXConnectionError) or (isinstance(e, EncodingError) and cls in ("Dna", "Dgna")):
                         refused += 1
                         w1 = len(b.link.writers[b.side].written)
                         rows1 = len(ep._journaler.recover_messages(ep._session, MessageDirection.OUTBOUND, 0, 2**63 - 1))
                         if w1 != w0:
-                            bad(f"refused-send-wrote/{cls}", f"{step} in {st0.name}: raised FIXConnectionError but wrote {w1 - w0} frame(s)")
+                            bad(f"refused-send-wrote/{cls}", f"{step} in {st0.name}: raised {type(e).__name__} but wrote {w1 - w0} frame(s)")
                         if ep._session.next_num_out != n0:
                             bad(f"refused-send-consumed-number/{cls}", f"{step} in {st0.name}: next_num_out {n0} -> {ep._session.next_num_out}")
                         if rows1 != rows0:
